@@ -1,9 +1,11 @@
 (* C15 — content filling and wrapper search are sound AND complete, and the wrapper chain found is a shortest
    one: theorems over every automaton table (the completeness theorems ask that the table's edges stay inside the
    table - [closed_schema], [closed_types], boolean checks evaluated on the dumped schema in every C15 case).
-   create_and_fill is evaluated per case by Corr.C15.holds. *)
+   create_and_fill: whatever it returns has the asked type and, as children, filler nodes / the given content untouched and
+   in order / filler nodes, matching the content expression up to a valid end; it is schema-valid as soon as the given
+   content is (C15_create_and_fill_shape, C15_create_and_fill_valid). *)
 From Coq Require Import List Bool Arith.
-From PM Require Import Model.Data Model.Mark Model.Tree Model.Step Model.Fill Proofs.FillProofs Proofs.FillComplete Proofs.WrapComplete.
+From PM Require Import Model.Data Model.Mark Model.Tree Model.Step Model.Fill Proofs.FillProofs Proofs.FillComplete Proofs.WrapComplete Proofs.ValidityProofs Proofs.CreateFill.
 Import ListNotations.
 
 (* over every deterministic automaton table (what the compiler produces; [det_schema] is a boolean check):
@@ -50,3 +52,36 @@ Theorem C15_find_wrapping_shortest : forall s q target chain,
   forall c, chain_fits s q c target true -> length chain <= length c.
 Proof. intros s q target chain Hc. exact (find_wrapping_shortest s q target Hc chain). Qed.
 Print Assumptions C15_find_wrapping_shortest.
+
+(* ---- building a node 'and fill' ----
+   [Filler s k]: k is a valid, unmarked element node of a generatable type (what fill_before creates).
+   Whatever NodeType.create_and_fill(attrs, content, marks) returns is a node of the asked type with the computed
+   attributes and the sorted marks, whose children are exactly: filler nodes, the given content (untouched, in order),
+   filler nodes - and that child sequence matches the type's content expression up to a valid end. *)
+Theorem C15_create_and_fill_shape : forall s, det_schema s = true -> forall fuel ty a content ms n,
+  create_and_fill s fuel ty a content ms = Ok (Some n) ->
+  exists attrs bf af,
+    compute_attrs (nt_attrs (ntype_of s ty)) a = Ok attrs /\
+    n = Elem ty attrs (set_from ms) (bf ++ content ++ af) /\
+    Forall (Filler s) bf /\ Forall (Filler s) af /\
+    accepts s (nt_start (ntype_of s ty)) (types_of s (bf ++ content ++ af)) = true.
+Proof. exact create_and_fill_spec. Qed.
+Print Assumptions C15_create_and_fill_shape.
+
+(* ... so it is schema-valid (Node.check) whenever the given children are valid and carry marks the type allows, and the
+   given mark set is canonical once sorted (create_and_fill itself checks neither) *)
+Theorem C15_create_and_fill_valid : forall s, det_schema s = true -> forall fuel ty a content ms n,
+  create_and_fill s fuel ty a content ms = Ok (Some n) ->
+  Forall (fun c => valid s c = true /\ allows_marks s ty (node_marks c) = true) content ->
+  marks_canonical s (set_from ms) = true ->
+  check s n = true.
+Proof. intros s Hd fuel ty a content ms n H Hc Hm. rewrite check_iff. exact (create_and_fill_valid s Hd fuel ty a content ms n H Hc Hm). Qed.
+Print Assumptions C15_create_and_fill_valid.
+
+(* the hypotheses are met: over the example schema of Properties/C01.v (doc: block+), building an empty document 'and
+   fill' puts in one empty paragraph, and the schema's table is deterministic *)
+From PM Require Properties.C01.
+Example C15_create_and_fill_example :
+  det_schema Properties.C01.ex_schema = true /\
+  create_and_fill Properties.C01.ex_schema 5 0 [] [] [] = Ok (Some (Elem 0 [] [] [Elem 1 [] [] []])).
+Proof. split; vm_compute; reflexivity. Qed.
